@@ -2,16 +2,16 @@
 """Regenerate MANIFEST.json from the table below (claims only properties whose check module exists)."""
 import json, os
 V = os.path.dirname(os.path.dirname(os.path.abspath(__file__)))
-FIX = ["babe27c", "ced6fc6", "e9b1823", "f0f5ba3", "2237bfc", "96a183d", "ab1e880", "e2514d2", "6d455da", "c3884d2", "0bd9b8b", "cdfcb1e", "bb6eea0", "f378e6e", "911118e", "f0e6b77", "9092519", "fa8f720", "95d4304", "286b90f"]
+FIX = ["babe27c", "ced6fc6", "e9b1823", "f0f5ba3", "2237bfc", "96a183d", "ab1e880", "e2514d2", "6d455da", "c3884d2", "0bd9b8b", "cdfcb1e", "bb6eea0", "f378e6e", "911118e", "f0e6b77", "9092519", "fa8f720", "95d4304", "286b90f", "231ce29", "bf9f023"]
 P = {
  "C01": ("model_checking", "walk", "TLC exhaustive model check of Walk.tla (every database x root list in every order) + TLC-enumerated scenarios replayed into the real client + TLC batch trace validation (Trace_Walk.tla)",
-         "TLC decides walk exactness on the implementation-shaped model for every database over a 7/9-instance universe and every list of <=3 disjoint roots in every order; the same scenarios (TLC's initial states) are replayed through Client.walk/multiwalk/bulkwalk and PyWrapper against a reference agent, and every recorded trace is judged by the TLC monitor (nothing outside the roots, no duplicate, no invented value, ascending for one root, complete at the end).",
+         "TLC decides walk exactness on the implementation-shaped model for every database over a 7/9-instance universe and every list of <=3 disjoint roots in every order; the same scenarios (TLC's initial states) are replayed through Client.walk/multiwalk/bulkwalk and PyWrapper against a reference agent, and every recorded trace is judged by the TLC monitor (nothing outside the roots, no duplicate, no invented value, ascending for one root, complete at the end). Round 2: seeded large databases are also walked by GETBULK with repetitions 2..25 (subtrees exhausted in different rounds).",
          "reference agent (harness/refagent.py) is the environment; each of its answers is re-validated against spec/Agent.tla inside the monitor; bounds: <=9 instances / <=3 roots exhaustively, seeded random databases up to ~200 instances"),
  "C02": ("model_checking", "walk", "TLC exhaustive model check of Walk.tla with the GETBULK fetcher under every conformant truncation + scenario replay + TLC trace validation",
          "as C01 with max-repetitions 1..3(4) and every agent prefix choice at every request in the model; replay drives the real bulk walk under five reactive truncation policies and seeded bulk sizes up to 50; the monitor judges the bulk result against the same Strict/Opt sets that define the GETNEXT walk's result.",
          "equality with the GETNEXT walk is modulo instances equal to a root (C01 accepts both); conformant truncation = any prefix with >= 1 complete repetition"),
  "C03": ("model_checking", "walk", "TLC exhaustive model check of Walk.tla against every stateless faulty agent F + every F replayed reactively + TLC trace validation",
-         "TLC explores every function F: requested OID -> OID|endOfMibView over a 5/6-OID universe, both fetchers, both error modes: request bound, no re-request, outcome mode; every F is replayed into walk/multiwalk/bulkwalk/table/bulktable under a request budget and judged by the monitor (budget, re-request, request after a detectable fault, strict/lenient outcome, spurious Faulty).",
+         "TLC explores every function F: requested OID -> OID|endOfMibView over a 5/6-OID universe, both fetchers, both error modes: request bound, no re-request, outcome mode; every F is replayed into walk/multiwalk/bulkwalk/table/bulktable under a request budget and judged by the monitor (budget, re-request, request after a detectable fault, strict/lenient outcome, spurious Faulty). Round 2: a nested universe {1.1, 1.1.1, 2.1} (answers that are proper prefixes of the requested OID) model-checked and replayed; lenient bulk walks through multiwalk(fetcher=...).",
          "stateless faulty agents only (the same question gets the same answer); bulk walks are judged by termination and no re-request (weaker reading, DESIGN 6/C03)"),
  "C04": ("model_checking", "ops", "TLC model check of Ops.tla + scenario replay of every operation + TLC trace validation (Trace_Ops.tla)", "", ""),
  "C05": ("exploration", "ber", "TLC evaluates the independent BER/SNMP decoder Ber.tla on every datagram the real client emitted (trace validation with a trivial state space)", "", ""),
